@@ -147,6 +147,7 @@ def opsLin : List (String × OpFn) := [
               match basisToRat (Basis.elliptical c2o s2o c2e s2e) with
               | some b' => go k b' o' e'
               | none => perr "non-finite basis"
+          | "bad" => go k (Basis.refuse b) o e
           | _ => perr "basis"
       let (b, o, e) ← go n Basis.linear 0 0
       let x ← vec 3
